@@ -459,8 +459,10 @@ inline double horizon(const Geodesic& g, double a, double lat0, double lon0, dou
   return s;
 }
 
-inline void generate(Rng& r, bool thorough) {
-  long n = thorough ? 100000 : 12000;
+inline void generate(Rng& r, bool thorough, int K = 1) {
+  auto Q = [&](long v) { return std::max<long>(1, v / K); };   // K slices: the orchestrating generate() runs the parts round-robin
+
+  long n = Q(thorough ? 100000 : 12000);
   auto H = [](double v) { return hx(v); };
   for (long i = 0; i < n; ++i) {
     Case c;
